@@ -217,6 +217,9 @@ impl Property for C18 {
     fn marks(&self) -> bool {
         true
     }
+    fn fuzz(&self) -> Option<crate::FuzzSpec> {
+        Some(crate::FuzzSpec { label: "c18-ws", max_len: 700, runs: 10000 })
+    }
     fn run(&self, ctx: &mut Ctx) {
         let cases = ctx.tier.pick(2_000, 60_000);
         ctx.run_streams("c18-ws", cases, 700, |ctx, bytes| {
